@@ -315,6 +315,20 @@ public:
       if(i>0)
         strides[i-1] = arraysize;
     }
+
+    //keep the extents of the stacked tables; in the new dimension make them up
+    //as fit does: the fully supported range
+    extents=allocate<double_ptr>(ndim);
+    std::fill_n(extents,ndim,nullptr);
+    extents[0]=allocate<double>(2*ndim);
+    for(unsigned int i=0; i<ndim; i++)
+      extents[i]=&extents[0][2*i];
+    for(unsigned int i=0; i<inputDim; i++){
+      extents[i][0]=tables.front()->lower_extent(i);
+      extents[i][1]=tables.front()->upper_extent(i);
+    }
+    extents[inputDim][0]=knots[inputDim][order[inputDim]];
+    extents[inputDim][1]=knots[inputDim][nknots[inputDim]-order[inputDim]-1];
 	}
 
 	splinetable(splinetable&& other):
